@@ -452,15 +452,23 @@ func c04multiExec(c *h.Ctx, cs *h.Case) {
 					}
 				}
 				if handled && fm.ch && !in.std && want != "-" {
-					// lands in the channel — or waits for room in it —, seen at the next recv: nothing may be lost
-					in.inChan[ty] = append(in.inChan[ty], want)
-					want = "-"
 					if fm.slice {
+						// lands in the channel — or waits for room in it —, seen at the next recv: nothing may be lost
+						in.inChan[ty] = append(in.inChan[ty], want)
+						want = "-"
 						if in.occ[ty] >= fm.cap {
 							want = "blocked"
 						} else {
 							in.occ[ty]++
 						}
+					} else {
+						// one by one: a message that finds a free slot must arrive; one that finds the channel full is
+						// refused ("channel too small", the documented limit of plain channels)
+						if in.occ[ty] < fm.cap {
+							in.inChan[ty] = append(in.inChan[ty], want)
+							in.occ[ty]++
+						}
+						want = "-"
 					}
 				}
 				if want == "blocked" && got == "-" {
@@ -699,7 +707,7 @@ func c04multiGen(c *h.Ctx, yield func(*h.Case)) {
 		isStd := map[int]bool{}
 		for i := 0; i < ni; i++ {
 			ks[i] = 1 + r.Intn(4)
-			scr, fm := mkScript(r, sliceLo, sliceSpan, 8, 4)
+			scr, fm := mkScript(r, sliceLo, sliceSpan, 1, 5)
 			forms[i] = fm
 			cs.Ops = append(cs.Ops, fmt.Sprintf("c04 inst %d %s %d reg %s", i, side(root), ks[i], scr))
 		}
@@ -736,7 +744,7 @@ func c04multiGen(c *h.Ctx, yield func(*h.Case)) {
 						s.msgs = append(s.msgs[:at], append([]string{"p"}, s.msgs[at:]...)...)
 					}
 				default:
-					for j := 0; j < 1+r.Intn(3); j++ {
+					for j := 0; j < 1+r.Intn(6); j++ {
 						src := strconv.Itoa(r.Intn(ks[i]))
 						if !root && r.Intn(3) == 0 {
 							src = "p"
@@ -771,6 +779,16 @@ func c04multiGen(c *h.Ctx, yield func(*h.Case)) {
 				}
 				continue
 			}
+			if fm, ok := forms[s.inst][s.ty]; ok && !fm.slice && fm.ch && !isStd[s.inst] {
+				// a plain channel: mostly the protocol reads before it is full; now and then it does not and the
+				// message is refused (the oracle expects exactly that)
+				if occ[key{s.inst, s.ty}] >= fm.cap && r.Intn(4) != 0 {
+					recv(s.inst)
+				}
+				if occ[key{s.inst, s.ty}] < fm.cap {
+					occ[key{s.inst, s.ty}]++
+				}
+			}
 			val++
 			src := s.msgs[0]
 			cs.Ops = append(cs.Ops, fmt.Sprintf("c04 imsg %d %d %s %d", s.inst, s.ty, src, val))
@@ -802,7 +820,7 @@ func c04multiGen(c *h.Ctx, yield func(*h.Case)) {
 				}
 				continue
 			}
-			if since[s.inst] >= 6 || (!slow && r.Intn(3) == 0) {
+			if since[s.inst] >= 12 || (!slow && r.Intn(4) == 0) {
 				recv(s.inst)
 			}
 		}
@@ -902,7 +920,7 @@ func c04multiGen(c *h.Ctx, yield func(*h.Case)) {
 	// --- RegisterChannel / RegisterChannels make channels of DefaultChannelLength: a plain channel that is
 	// never read takes exactly that many messages, the next ones are refused ("channel too small")
 	for _, root := range []bool{false, true} {
-		cs := &h.Case{Class: "reg default-length"}
+		cs := &h.Case{Class: "reg default-length premise"}
 		cs.Ops = append(cs.Ops, fmt.Sprintf("c04 inst 0 %s 2 reg C=qp4;H=fp3", side(root)))
 		for j := 0; j < onet.DefaultChannelLength+3; j++ {
 			val++
@@ -911,7 +929,7 @@ func c04multiGen(c *h.Ctx, yield func(*h.Case)) {
 		cs.Ops = append(cs.Ops, "c04 recv 0")
 		val++
 		cs.Ops = append(cs.Ops, fmt.Sprintf("c04 imsg 0 4 1 %d", val), "c04 recv 0")
-		c.Count("class=reg default-length")
+		c.Count("class=reg default-length premise")
 		yield(cs)
 	}
 }
